@@ -37,5 +37,12 @@ def nontrivial(case, tr):
 replay = SC.replay_with(judge)
 
 
+POOL_RUNS = {'quick': 25, 'thorough': 250}
+
+
 def run_shard(tier, idx, nshards, rec, known):
-    return [SC.run_profile('stop', judge, nontrivial, rec, known, N[tier], seed() * 1000 + idx)]
+    outs = [SC.run_profile('stop', judge, nontrivial, rec, known, N[tier], seed() * 1000 + idx)]
+    if idx == 0 and not outs[0].violation:
+        # part "pools": the five real backends (threads and process pools) with delay tables
+        outs.append(SC.run_pools('stop', rec, known, POOL_RUNS[tier], seed() * 1000 + 999))
+    return outs
